@@ -53,6 +53,9 @@ def strategy(tier):
         doc_kw={"n_ops": (1, 3), "n_frags": (0, 3)},
         schema_kw={"defaults": 0.1},
         ops_kw={"directive_p": 0.2},
+        # KF-C01-10 (fields inside a conditional inline fragment / spread stay required) is open; C05 still draws
+        # such fragments and exempts exactly the keys whose conditionality comes from the fragment's directive
+        force_features=("sel.directive_on_inline", "sel.directive_on_spread"),
     )
 
 
@@ -233,13 +236,22 @@ class Image:
             fdef = opwalk.field_def(self.schema, runtime, info["nodes"][0])
             if fdef is None:
                 continue
+            if info["conditional"] and not info["own_conditional"]:
+                # conditional only through the directive of an enclosing fragment: KF-C01-10 types it as required
+                from vf import gen_common
+
+                gen_common.EXCLUDED[findings.open_triggers().get("sel.directive_on_inline", "KF-C01-10")] += 1
+                fragment_conditional = True
+            else:
+                fragment_conditional = False
             cands = opwalk.static_field_types(self.schema, info, runtime) or [fdef.type]
             cands = list({str(t): t for t in cands + [fdef.type]}.values())
             # accepted images: the static type(s) the operation gives the key, or the runtime object's own (narrower) type
             trial = []
             for t in cands:
                 n0 = len(self.bad)
-                self.shape(f"{cls.__name__}.{name}", f.annotation, t, info["conditional"], info, 0)
+                self.shape(f"{cls.__name__}.{name}", f.annotation, t,
+                           None if fragment_conditional else info["conditional"], info, 0)
                 trial.append(self.bad[n0:])
                 del self.bad[n0:]
                 if not trial[-1]:
@@ -251,8 +263,10 @@ class Image:
         opt, inner = split_optional(ann)
         nonnull = isinstance(gtype, GraphQLNonNull)
         g = gtype.of_type if nonnull else gtype
-        want_opt = (not nonnull) or (conditional and depth == 0)
-        if opt != want_opt:
+        want_opt = (not nonnull) or (bool(conditional) and depth == 0)
+        if conditional is None and depth == 0 and nonnull:
+            pass  # Optional-ness not judged (see cls)
+        elif opt != want_opt:
             self.fail(f"{where}: annotation {ann} is {'Optional' if opt else 'not Optional'} but GraphQL type {gtype} "
                       f"(conditional={conditional}) requires {'Optional' if want_opt else 'non-Optional'}", "optional_mismatch")
         inner = strip_annotated(inner)
